@@ -3,6 +3,7 @@ Stream laws of the tokenizer model, part 2: the simulation `Core` (see `Proofs/H
 two instances: PREFIX STABILITY (`next_prefix_stable`) and RESTART (`next_restart`).
 -/
 import RioModel.Proofs.HtmlStream
+import RioModel.Proofs.HtmlStreamA
 set_option linter.unusedSimpArgs false
 set_option linter.unusedVariables false
 
@@ -20,26 +21,35 @@ macro_rules
 local macro "tr" : tactic => `(tactic| first | trivial | rfl)
 /-- close `CoreT` from a `Core` fact, up to fields outside `live` and rewriting by hypotheses -/
 local macro "ct " x:term : tactic =>
-  `(tactic| (refine ⟨Core.congr $x ?_ ?_, ?_⟩ <;> first | rfl | (simp [live, *]; done)))
+  `(tactic| (refine ⟨⟨Core.congr $x ?_ ?_, ?_⟩, ?_⟩ <;>
+      first | rfl | (simp [live, *]; done) | (intro hTL; simp [isTagLike] at hTL; done)))
 
 local macro "lrfl" : tactic => `(tactic| first | (simp [live, pushPending]; done) | rfl)
 
 /-- `Core` plus the token type (set by every path of `next`) -/
 def CoreT (F : Prop) (p : Nat) (t u : Tokenizer) : Prop := Core F p t u ∧ t.token = u.token
 
+/-- … plus, for a tag token, the attribute list (rebuilt by `read_tag`): same spans up to the shift, same read position -/
+def CoreTA (F : Prop) (p : Nat) (t u : Tokenizer) : Prop :=
+  CoreT F p t u ∧ (isTagLike u.token = true → Sav p t u)
+
+/-- a token that is not a tag says nothing about the attribute list -/
+theorem CoreT.toA {F : Prop} {p : Nat} {t u : Tokenizer} (c : CoreT F p t u) (h : isTagLike u.token = false) :
+    CoreTA F p t u := ⟨c, fun h' => by rw [h] at h'; cases h'⟩
+
 @[simp] theorem finishText_err (t : Tokenizer) : (finishText t).err = t.err := by
   unfold finishText; split <;> rfl
 
 theorem finishText_sim {F : Prop} {p : Nat} (t u : Tokenizer) (c : Core F p t u) :
-    CoreT F p (finishText t) (finishText u) := by
+    CoreTA F p (finishText t) (finishText u) := by
   unfold finishText
   have hc : (t.rawS < t.rawE) ↔ (u.rawS < u.rawE) := by rw [c.rawS, c.rawE]; omega
   by_cases h : u.rawS < u.rawE
   · sif' [h, hc.mpr h]
-    exact ⟨c.dataE_rawE.congr (by lrfl) (by lrfl), rfl⟩
+    exact CoreT.toA ⟨c.dataE_rawE.congr (by lrfl) (by lrfl), rfl⟩ rfl
   · have h' : ¬ t.rawS < t.rawE := fun x => h (hc.mp x)
     sif' [h, h']
-    exact ⟨c.congr (by lrfl) (by lrfl), rfl⟩
+    exact CoreT.toA ⟨c.congr (by lrfl) (by lrfl), rfl⟩ rfl
 
 theorem dispatchTag_err (t : Tokenizer) (b : Nat) (h : t.err = true) : (dispatchTag t b).err = true := by
   unfold dispatchTag
@@ -58,7 +68,7 @@ theorem mainLoop_err (t : Tokenizer) (h : t.err = true) : (mainLoop t).err = tru
 
 theorem dispatchTag_sim {F : Prop} {p : Nat} (t u : Tokenizer) (b : Nat) (c : Core F p t u) (ok : Ok u)
     (h2 : 2 ≤ u.rawE) (htag : TagOk u.rawTag) (e : EO F (dispatchTag u b)) :
-    CoreT F p (dispatchTag t b) (dispatchTag u b) := by
+    CoreTA F p (dispatchTag t b) (dispatchTag u b) := by
   unfold dispatchTag at e ⊢
   simp only [htmlTagOpenLen] at e ⊢
   have hu2 : ¬ u.rawE < 2 := by omega
@@ -67,7 +77,7 @@ theorem dispatchTag_sim {F : Prop} {p : Nat} (t u : Tokenizer) (b : Nat) (c : Co
   have hx : (t.rawS < t.rawE - 2) ↔ (u.rawS < u.rawE - 2) := by rw [c.rawS, c.rawE]; omega
   by_cases h1 : u.rawS < u.rawE - 2
   · sif' [h1, hx.mpr h1]
-    refine ⟨⟨c.size, c.agree, c.full, c.rawS, ?_, c.dataS, ?_, c.err, c.rawTag, c.cdata, c.panic, c.hang, c.utf8⟩, rfl⟩
+    refine CoreT.toA ⟨⟨c.size, c.agree, c.full, c.rawS, ?_, c.dataS, ?_, c.err, c.rawTag, c.cdata, c.panic, c.hang, c.utf8⟩, rfl⟩ rfl
     · simp only; have := c.rawE; omega
     · simp only; have := c.rawE; omega
   · have h1' : ¬ t.rawS < t.rawE - 2 := fun x => h1 (hx.mp x)
@@ -75,8 +85,9 @@ theorem dispatchTag_sim {F : Prop} {p : Nat} (t u : Tokenizer) (b : Nat) (c : Co
     by_cases ha : isAlpha b = true
     · sif' [ha] at e ⊢
       have s := readStartTag_sim t u c ok h2 htag e
+      have sA := readStartTag_simA t u c ok h2 e
       have hs2 := s.2
-      ct s.1
+      refine ⟨⟨Core.congr s.1 ?_ ?_, ?_⟩, fun _ => ⟨sA.attrs, sA.n⟩⟩ <;> first | rfl | (simp [live, *]; done)
     · sif' [ha] at e ⊢
       by_cases hs : (b == 47) = true
       · sif' [hs] at e ⊢
@@ -100,6 +111,7 @@ theorem dispatchTag_sim {F : Prop} {p : Nat} (t u : Tokenizer) (b : Nat) (c : Co
             · sif' [h5] at e ⊢
               have er : EO F (readTag u.readByte.1 false) := e.back (fun h => by split <;> simpa using h)
               have r := readTag_sim _ _ false rb.1 a3.ok hp er
+              have rA := readTag_simA _ _ false rb.1 a3.ok hp er
               have hre := r.err
               by_cases h6 : (readTag u.readByte.1 false).err = true
               · have h6' : (readTag t.readByte.1 false).err = true := by rw [hre, h6]
@@ -107,7 +119,7 @@ theorem dispatchTag_sim {F : Prop} {p : Nat} (t u : Tokenizer) (b : Nat) (c : Co
                 ct r
               · have h6' : ¬ (readTag t.readByte.1 false).err = true := by rw [hre]; exact h6
                 sif' [h6, h6']
-                ct r
+                refine ⟨⟨Core.congr r ?_ ?_, ?_⟩, fun _ => ⟨rA.attrs, rA.n⟩⟩ <;> first | rfl | (simp [live, *]; done)
             · sif' [h5] at e ⊢
               have r := readUntilCloseAngle_sim _ _ (unread_sim 1 rb.1 hp) (read_unread_adv ok h3).ok e
               ct r
@@ -116,7 +128,12 @@ theorem dispatchTag_sim {F : Prop} {p : Nat} (t u : Tokenizer) (b : Nat) (c : Co
         · sif' [hb] at e ⊢
           have m := readMarkupDeclaration_sim t u c ok h2 e
           have hm2 := m.2
-          ct m.1
+          have hk := (markup_kind u).1
+          refine ⟨⟨Core.congr m.1 ?_ ?_, ?_⟩, fun hTL => ?_⟩
+          · rfl
+          · rfl
+          · simp [live, *]
+          · exfalso; simp only at hTL; rw [hk] at hTL; cases hTL
         · sif' [hb] at e ⊢
           have oku : Ok (u.unread 1) := by
             unfold unread
@@ -126,7 +143,7 @@ theorem dispatchTag_sim {F : Prop} {p : Nat} (t u : Tokenizer) (b : Nat) (c : Co
           ct r
 
 theorem mainLoop_sim {F : Prop} {p : Nat} (t u : Tokenizer) (c : Core F p t u) (ok : Ok u)
-    (htag : TagOk u.rawTag) (e : EO F (mainLoop u)) : CoreT F p (mainLoop t) (mainLoop u) := by
+    (htag : TagOk u.rawTag) (e : EO F (mainLoop u)) : CoreTA F p (mainLoop t) (mainLoop u) := by
   fun_induction mainLoop u generalizing t
   all_goals (try simp +zetaDelta only at *)
   case case1 =>
@@ -192,20 +209,20 @@ theorem nextGo_err (t : Tokenizer) (h : t.err = true) : (nextGo t).err = true :=
   unfold nextGo; simp [h]
 
 theorem nextGo_sim {F : Prop} {p : Nat} (t u : Tokenizer) (c : Core F p t u) (ok : Ok u)
-    (htag : TagOk u.rawTag) (e : EO F (nextGo u)) : CoreT F p (nextGo t) (nextGo u) := by
+    (htag : TagOk u.rawTag) (e : EO F (nextGo u)) : CoreTA F p (nextGo t) (nextGo u) := by
   unfold nextGo at e ⊢
   simp only at e ⊢
   by_cases h0 : u.err = true
   · have ht0 : t.err = true := by rw [c.err]; exact h0
     rw [if_pos h0, if_pos ht0]
-    exact ⟨c.congr (by lrfl) (by lrfl), rfl⟩
+    exact CoreT.toA ⟨c.congr (by lrfl) (by lrfl), rfl⟩ rfl
   · have ht0 : ¬ t.err = true := by rw [c.err]; exact h0
     rw [if_neg h0] at e ⊢
     rw [if_neg ht0]
     -- the continuation: the main loop
     have cont : ∀ t1 u1 : Tokenizer, Core F p t1 u1 → Ok u1 → TagOk u1.rawTag →
         EO F (mainLoop { u1 with textIsRaw := false, convertNull := false }) →
-        CoreT F p (mainLoop { t1 with textIsRaw := false, convertNull := false })
+        CoreTA F p (mainLoop { t1 with textIsRaw := false, convertNull := false })
           (mainLoop { u1 with textIsRaw := false, convertNull := false }) := by
       intro t1 u1 c1 ok1 tg1 e1
       exact mainLoop_sim _ _ (c1.congr (by lrfl) (by lrfl)) ⟨ok1.le, ok1.panic, ok1.hang, ok1.utf8⟩ tg1 e1
@@ -216,7 +233,7 @@ theorem nextGo_sim {F : Prop} {p : Nat} (t u : Tokenizer) (c : Core F p t u) (ok
       have key : ∀ t1 u1 : Tokenizer, Core F p t1 u1 → Ok u1 → TagOk u1.rawTag →
           EO F (if u1.dataE > u1.dataS then { u1 with token := .text, convertNull := true }
             else mainLoop { u1 with textIsRaw := false, convertNull := false }) →
-          CoreT F p (if t1.dataE > t1.dataS then { t1 with token := .text, convertNull := true }
+          CoreTA F p (if t1.dataE > t1.dataS then { t1 with token := .text, convertNull := true }
             else mainLoop { t1 with textIsRaw := false, convertNull := false })
             (if u1.dataE > u1.dataS then { u1 with token := .text, convertNull := true }
             else mainLoop { u1 with textIsRaw := false, convertNull := false }) := by
@@ -224,7 +241,7 @@ theorem nextGo_sim {F : Prop} {p : Nat} (t u : Tokenizer) (c : Core F p t u) (ok
         have hc : (t1.dataE > t1.dataS) ↔ (u1.dataE > u1.dataS) := by rw [c1.dataE, c1.dataS]; omega
         by_cases h : u1.dataE > u1.dataS
         · rw [if_pos h, if_pos (hc.mpr h)]
-          exact ⟨c1.congr (by lrfl) (by lrfl), rfl⟩
+          exact CoreT.toA ⟨c1.congr (by lrfl) (by lrfl), rfl⟩ rfl
         · have h' : ¬ t1.dataE > t1.dataS := fun x => h (hc.mp x)
           rw [if_neg h] at e1 ⊢
           rw [if_neg h']
@@ -286,11 +303,14 @@ theorem Core.toPre {F : Prop} {p : Nat} {t u : Tokenizer} (c : Core F p t u) : P
 
 /-- **Simulation for `next`**: related states stay related (live fields and token type), provided the window is
 full or the call on the window does not hit EOF. -/
-theorem next_sim {F : Prop} {p : Nat} (t u : Tokenizer) (c : Pre F p t u) (inv : Inv u) (e : EO F (next u)) :
-    CoreT F p (next t) (next u) := by
+theorem next_simA {F : Prop} {p : Nat} (t u : Tokenizer) (c : Pre F p t u) (inv : Inv u) (e : EO F (next u)) :
+    CoreTA F p (next t) (next u) := by
   unfold next at e ⊢
   exact nextGo_sim _ _ ⟨c.size, c.agree, c.full, c.rawE, c.rawE, c.rawE, c.rawE, c.err, c.rawTag, c.cdata, c.panic,
     c.hang, c.utf8⟩ ⟨inv.ok.le, inv.ok.panic, inv.ok.hang, inv.ok.utf8⟩ inv.tag e
+
+theorem next_sim {F : Prop} {p : Nat} (t u : Tokenizer) (c : Pre F p t u) (inv : Inv u) (e : EO F (next u)) :
+    CoreT F p (next t) (next u) := (next_simA t u c inv e).1
 
 theorem next_err_sticky (t : Tokenizer) (h : t.err = true) : (next t).err = true := nextGo_err _ h
 
@@ -304,6 +324,16 @@ theorem nexts_sim {F : Prop} {p : Nat} (n : Nat) (t u : Tokenizer) (c : Pre F p 
     have i := ih e'
     have s := next_sim (nexts n t) (nexts n u) i.1 (nexts_inv n u inv) e
     exact ⟨s.1.toPre, fun _ => s⟩
+
+/-- iterated, with the attribute list of a tag token -/
+theorem nexts_simA {F : Prop} {p : Nat} (n : Nat) (t u : Tokenizer) (c : Pre F p t u) (inv : Inv u)
+    (e : EO F (nexts n u)) (hn : 0 < n) : CoreTA F p (nexts n t) (nexts n u) := by
+  cases n with
+  | zero => exact absurd hn (Nat.lt_irrefl _)
+  | succ n =>
+    have e' : EO F (nexts n u) := e.back (next_err_sticky _)
+    have i := nexts_sim n t u c inv e'
+    exact next_simA (nexts n t) (nexts n u) i.1 (nexts_inv n u inv) e
 
 /-- the bytes of a span inside the window are the same bytes in the big buffer -/
 theorem Pre.extract {F : Prop} {p : Nat} {t u : Tokenizer} (c : Pre F p t u) (a b : Nat) (h1 : a ≤ b)
@@ -372,6 +402,70 @@ theorem nexts_restart (n : Nat) (t : Tokenizer) (inv : Inv t) (herr : t.err = fa
     (hcd : t.allowCdata = true) (hn : 0 < n) : CoreT True t.rawE (nexts n t) (nexts n (restartOf t)) :=
   (nexts_sim n t (restartOf t) (pre_restart t inv herr htag hcd) (by
     exact ⟨Nat.le_refl _, ⟨Nat.zero_le _, rfl, rfl, rfl⟩, TagOk_nil⟩) (Or.inl trivial)).2 hn
+
+/-! ### the attribute list of a tag token is covered too -/
+
+/-- **PREFIX STABILITY, attributes included**: a tag token produced without hitting EOF has, on every extension of the
+buffer, the same attribute spans and the same `number_attribute_returned` (so `tag_attr()` returns the same) -/
+theorem nexts_prefix_stableA (n : Nat) (u : Tokenizer) (inv : Inv u) (x : Array Nat)
+    (hne : (nexts n u).err = false) (hn : 0 < n) : CoreTA False 0 (nexts n (extend u x)) (nexts n u) :=
+  nexts_simA n (extend u x) u (pre_extend u x) inv (Or.inr hne) hn
+
+/-- **RESTART, attributes included**: the attribute spans of a tag token after a restart are those of the continued
+tokenizer, shifted by the restart position -/
+theorem nexts_restartA (n : Nat) (t : Tokenizer) (inv : Inv t) (herr : t.err = false) (htag : t.rawTag = [])
+    (hcd : t.allowCdata = true) (hn : 0 < n) : CoreTA True t.rawE (nexts n t) (nexts n (restartOf t)) :=
+  nexts_simA n t (restartOf t) (pre_restart t inv herr htag hcd) (by
+    exact ⟨Nat.le_refl _, ⟨Nat.zero_le _, rfl, rfl, rfl⟩, TagOk_nil⟩) (Or.inl trivial) hn
+
+/-- a span inside the window is the same slice of the big buffer -/
+theorem Pre.slice {F : Prop} {p : Nat} {t u : Tokenizer} (c : Pre F p t u) (a b : Nat) (h1 : a ≤ b)
+    (h2 : b ≤ u.buf.size) : t.slice? (p + a) (p + b) = u.slice? a b := by
+  unfold slice?
+  have hs := c.size
+  rw [if_pos ⟨by omega, by omega⟩, if_pos ⟨h1, h2⟩, c.extract a b h1 h2]
+
+/-- **`tag_attr()` on related states**: with corresponding attribute lists (`Sav`, spans inside the window) the accessor
+returns the same key / value / has-more, and the lists stay corresponding -/
+theorem tagAttr_sim {F : Prop} {p : Nat} {t u : Tokenizer} (c : Pre F p t u) (sv : Sav p t u) (ha : AttrsOk u)
+    (htok : t.token = u.token) : (tagAttr t).1 = (tagAttr u).1 ∧ Sav p (tagAttr t).2 (tagAttr u).2 := by
+  have hsz : t.attrs.size = u.attrs.size := by rw [sv.attrs]; simp
+  unfold tagAttr
+  rw [htok, sv.n]
+  by_cases h : u.nAttrRet < u.attrs.size
+  · have h' : u.nAttrRet < t.attrs.size := by rw [hsz]; exact h
+    rw [dif_pos h, dif_pos h']
+    by_cases hk : (u.token == .startTag || u.token == .selfClosing) = true
+    · rw [if_pos hk, if_pos hk]
+      have hel : t.attrs[u.nAttrRet]'h' = AttrSpan.shift p (u.attrs[u.nAttrRet]'h) := by
+        have := sv.attrs
+        simp only [this, Array.getElem_map]
+      have hin := ha (u.attrs[u.nAttrRet]'h) (by simp)
+      simp only [hel, AttrSpan.shift]
+      rw [c.slice _ _ hin.1 hin.2.1, c.slice _ _ hin.2.2.1 hin.2.2.2]
+      have sv' : ∀ (x y : Tokenizer), x.attrs = t.attrs → y.attrs = u.attrs → x.nAttrRet = u.nAttrRet + 1 →
+          y.nAttrRet = u.nAttrRet + 1 → Sav p x y := by
+        intro x y h1 h2 h3 h4
+        exact ⟨by rw [h1, h2]; exact sv.attrs, by rw [h3, h4]⟩
+      cases hs1 : u.slice? (u.attrs[u.nAttrRet]'h).ks (u.attrs[u.nAttrRet]'h).ke with
+      | none => exact ⟨rfl, sv' _ _ rfl rfl (by simp [sv.n]) rfl⟩
+      | some k =>
+        simp only
+        by_cases hv : (!validUtf8 k) = true
+        · rw [if_pos hv, if_pos hv]; exact ⟨rfl, sv' _ _ rfl rfl (by simp [sv.n]) rfl⟩
+        · rw [if_neg hv, if_neg hv]
+          cases hs2 : u.slice? (u.attrs[u.nAttrRet]'h).vs (u.attrs[u.nAttrRet]'h).ve with
+          | none => exact ⟨rfl, sv' _ _ rfl rfl (by simp [sv.n]) rfl⟩
+          | some v =>
+            simp only
+            by_cases hv2 : (!validUtf8 v) = true
+            · rw [if_pos hv2, if_pos hv2]; exact ⟨rfl, sv' _ _ rfl rfl (by simp [sv.n]) rfl⟩
+            · rw [if_neg hv2, if_neg hv2]
+              refine ⟨?_, sv' _ _ rfl rfl (by simp [sv.n]) rfl⟩
+              simp only [sv.n, hsz]
+    · rw [if_neg hk, if_neg hk]; exact ⟨rfl, sv⟩
+  · have h' : ¬ u.nAttrRet < t.attrs.size := by rw [hsz]; exact h
+    rw [dif_neg h, dif_neg h']; exact ⟨rfl, sv⟩
 
 end Tokenizer
 end Rio.Html
